@@ -217,8 +217,19 @@ def r2_ready_wake_agreement(ctx):
         ctx.check(is_time and op == 'le', 'bump-table:%s' % g.key.split('::')[-1], 'TimerQueue::bump takes a slot iff slot.time <= now (same predicate as Sleep::poll)', g.where(),
                   '%s %s %s' % (show_c(l), op, show_c(r)))
     # cur is SimTime::now()
+    def is_now(f, e, depth=0):
+        # the value of SimTime::now(): read in place, or handed in by every caller (`bump(now)` with `let now = SimTime::now()`)
+        e = peel(e)
+        if e[0] == 'call' and e[1] == NOW:
+            return True
+        if e[0] == 'arg' and depth < 4:
+            k = int(str(e[1]).lstrip('_')) - 1
+            sites = [s_ for s_ in P.call_sites_of(f.key) if s_.fn.key != f.key]
+            return bool(sites) and all(k < len(s_.args) and is_now(s_.fn, s_.fn.expr_operand(s_.args[k], s_.b, 'T'), depth + 1) for s_ in sites)
+        return False
     now_calls = fb.calls_to(NOW)
-    ctx.check(len(now_calls) >= 1, 'bump-clock', 'bump compares against the simulation clock', fb.where())
+    handed_in = [k for k in range(2, fb.argc + 1) if 'SimTime' in str(fb.local_ty(k)) and is_now(fb, ('arg', k))] if not now_calls else []
+    ctx.check(len(now_calls) >= 1 or bool(handed_in), 'bump-clock', 'bump compares against the simulation clock', fb.where())
     for (_, _, ck) in fb.closures_created():
         pass
     # the captured `cur` of every predicate closure is the now() value
@@ -228,7 +239,7 @@ def r2_ready_wake_agreement(ctx):
                 if strip_generics(st['r']['def']) not in {g.key for g, _ in atoms}:
                     continue   # not a slot predicate (e.g. the closure unwrapping the Arc)
                 caps = [peel(fb.expr_operand(o, b, i)) for o in st['r']['ops']]
-                ok = all(c[0] == 'call' and c[1] == NOW for c in caps) and caps
+                ok = all(is_now(fb, c) for c in caps) and caps
                 ctx.check(bool(ok), 'bump-captures-now', "bump's slot predicate compares with the value of SimTime::now()", fb.where(b), [show(c) for c in caps])
 
 
